@@ -61,9 +61,9 @@ Section Idem.
   Variable p : policy M U R.
   Variable elem : bytes.
   Variable aps : amap (list (attr_policy M)).
-  Notation Fa := (filter_attr I p elem aps false).
+  Notation Fa := (filter_attr I p elem aps (has_style_policies I p elem)).
 
-  Hypothesis Hstyle : has_style_policies I p elem = false.
+  Hypothesis Hstyle : style_stable M U R I p elem.
   Hypothesis Hnot_a : beqb elem (B"a") = false.
   (* the filter's verdict on rel survives what the link pass does to a rel value, and covers what it writes *)
   Hypothesis Hmod : forall v c1 c2, Fa (REL, v) = [(REL, v)] ->
@@ -84,7 +84,7 @@ Section Idem.
   Theorem sanitize_attrs_idem_rel_closed attrs :
     sanitize_attrs I p elem (sanitize_attrs I p elem attrs aps) aps = sanitize_attrs I p elem attrs aps.
   Proof.
-    pose proof (sanitize_attrs_unfold M U R I p elem aps Hstyle Hnosandbox) as Unf.
+    pose proof (sanitize_attrs_unfold M U R I p elem aps Hnosandbox) as Unf.
     rewrite (Unf attrs). destruct attrs as [|a0 ar]; [reflexivity|].
     remember (flat_map Fa (a0 :: ar)) as c0 eqn:Ec0.
     assert (S0 : Forall kept c0) by (subst c0; apply F_kept; exact Hstyle).
